@@ -89,13 +89,17 @@ func (cp *counterparty) valsAt(h int64, disjoint bool) (vals, next *tmtypes.Vali
 }
 
 func (cp *counterparty) header(h int64, trusted uint64, disjoint bool) *xibctmtypes.Header {
+	return cp.headerWith(h, trusted, disjoint, cp.c.AppHashAfter[h-1])
+}
+
+func (cp *counterparty) headerWith(h int64, trusted uint64, disjoint bool, appHash []byte) *xibctmtypes.Header {
 	vals, next := cp.valsAt(h, disjoint)
 	_, tnext := cp.valsAt(int64(trusted), disjoint)
 	signers := map[string]bool{}
 	for _, v := range vals.Validators {
 		signers[string(v.Address)] = true
 	}
-	return Build(HeaderSpec{ChainID: ChainID, Height: h, Time: cp.timeOf(h), AppHash: cp.c.AppHashAfter[h-1], Vals: vals, NextVals: next,
+	return Build(HeaderSpec{ChainID: ChainID, Height: h, Time: cp.timeOf(h), AppHash: appHash, Vals: vals, NextVals: next,
 		Signers: signers, Trusted: clienttypes.NewHeight(1, trusted), TrustVals: tnext})
 }
 
@@ -143,6 +147,14 @@ func (s *histSys) Ops() []string {
 			out = append(out, fmt.Sprintf("upd %d %d", h, t))
 		}
 	}
+	// a second, different header for a height (another application hash, validly signed): if accepted it is the one stored
+	for _, h := range []int64{3, 4} {
+		for _, t := range stored {
+			if t < uint64(h) {
+				out = append(out, fmt.Sprintf("alt %d %d", h, t))
+			}
+		}
+	}
 	out = append(out, "adv 5s", "adv 10s", "adv to-expiry-1ns", "adv past-expiry")
 	for h := int64(2); h <= maxH; h++ {
 		out = append(out, fmt.Sprintf("ver %d", h))
@@ -186,12 +198,18 @@ func (s *histSys) Apply(op string) (obs, class string, viols []bfs.Viol) {
 		}
 		s.ctx = s.ctx.WithBlockTime(s.now)
 		return "adv", "advance clock", nil
-	case "upd":
+	case "upd", "alt":
 		var h int64
 		var t uint64
 		fmt.Sscan(f[1], &h)
 		fmt.Sscan(f[2], &t)
 		hdr := s.cp.header(h, t, s.b.Disjoint)
+		appHash := s.cp.c.AppHashAfter[h-1]
+		if f[0] == "alt" {
+			alt := sha256.Sum256(append([]byte("another block at this height/"), appHash...))
+			appHash = alt[:]
+			hdr = s.cp.headerWith(h, t, s.b.Disjoint, appHash)
+		}
 		before := s.h.DumpClient(s.ctx)
 		trusted, okT := s.m.Cons[t]
 		// necessary conditions of the statement
@@ -239,7 +257,7 @@ func (s *histSys) Apply(op string) (obs, class string, viols []bfs.Viol) {
 				class += " +pruned"
 			}
 		}
-		s.m.Cons[uint64(h)] = ModelCons{s.cp.timeOf(h), s.cp.c.AppHashAfter[h-1], next.Hash(), s.now}
+		s.m.Cons[uint64(h)] = ModelCons{s.cp.timeOf(h), appHash, next.Hash(), s.now}
 		if uint64(h) > s.m.Latest {
 			s.m.Latest = uint64(h)
 		}
@@ -253,7 +271,7 @@ func (s *histSys) Apply(op string) (obs, class string, viols []bfs.Viol) {
 		st := s.h.C.App.XIBCKeeper.ClientKeeper.ClientStore(s.ctx, Client)
 		err := cs.VerifyPacketCommitment(s.ctx, st, s.h.C.App.AppCodec(), ph, proof, "cp-1", "teleport_9000-10", 1, s.cp.value)
 		mc, stored := s.m.Cons[uint64(h)]
-		genuine := h-1 >= s.cp.commitAt
+		genuine := h-1 >= s.cp.commitAt && (!stored0(s, h) || string(s.m.Cons[uint64(h)].Root) == string(s.cp.c.AppHashAfter[h-1]))
 		delayOK := stored && !s.now.Before(mc.Processed.Add(time.Duration(s.delay)))
 		may := stored && uint64(h) <= s.m.Latest && delayOK && genuine
 		if err == nil {
@@ -287,7 +305,11 @@ func (s *histSys) Key() string {
 		if s.expired(v.Time) {
 			exp = "x"
 		}
-		ks = append(ks, fmt.Sprintf("%d%s%s", k, age[:1], exp))
+		alt := ""
+		if int64(k) >= 1 && string(v.Root) != string(s.cp.c.AppHashAfter[int64(k)-1]) {
+			alt = "a" // holds the other block's application hash
+		}
+		ks = append(ks, fmt.Sprintf("%d%s%s%s", k, age[:1], exp, alt))
 	}
 	sort.Strings(ks)
 	// clock bucket: distance classes to the next interesting instants
@@ -308,6 +330,8 @@ func (s *histSys) Key() string {
 	}
 	return fmt.Sprintf("d=%d|%s|L=%d|%s|fut=%d", s.delay, strings.Join(ks, ","), s.m.Latest, bucket, fut)
 }
+
+func stored0(s *histSys, h int64) bool { _, ok := s.m.Cons[uint64(h)]; return ok }
 
 func (s *histSys) Check() []bfs.Viol {
 	if !s.init {
